@@ -84,8 +84,11 @@ impl BodyWriter {
                 let mut input_used = 0;
 
                 if input.is_empty() {
-                    // Only ended once the terminating chunk has actually been written.
-                    self.ended = self.finish(w);
+                    // Only ended once the terminating chunk has actually been written,
+                    // and the terminating chunk is written only once.
+                    if !self.ended {
+                        self.ended = self.finish(w);
+                    }
                 } else {
                     // The chunk size might be smaller than the entire input, in which case
                     // we continue to send chunks frome the same input.
